@@ -454,7 +454,11 @@ func writeComputedFieldExpression(w *formatting.IndentedWriter, expression dsl.E
 				case dsl.BinaryOpMul:
 					w.WriteString("*")
 				case dsl.BinaryOpDiv:
-					w.WriteString("//")
+					if kind, ok := dsl.GetKindIfPrimitive(t.GetResolvedType()); ok && kind == dsl.PrimitiveKindInteger {
+						w.WriteString("//")
+					} else {
+						w.WriteString("/")
+					}
 				case dsl.BinaryOpPow:
 					w.WriteString("**")
 				default:
